@@ -23,13 +23,13 @@ var m3ViaConfiguration bool
 // m3Env is one M3 reporter lifetime with its loopback sinks.
 type m3Env struct {
 	ExtraDests int // destinations given in opts.HostPorts that are not sinks (dead ports)
-	Sinks    []*mon.Sink
-	Opts     m3.Options
-	Rep      m3.Reporter
-	TC0, TC1 int64 // clock readings before/after construction
-	fmu      sync.Mutex
-	FlushSeq []int64 // sequence numbers of UDPFlushed hits
-	inner    func(int)
+	Sinks      []*mon.Sink
+	Opts       m3.Options
+	Rep        m3.Reporter
+	TC0, TC1   int64 // clock readings before/after construction
+	fmu        sync.Mutex
+	FlushSeq   []int64 // sequence numbers of UDPFlushed hits
+	inner      func(int)
 }
 
 // hook records UDPFlushed hits and forwards to an optional inner hook.
